@@ -33,7 +33,7 @@ theorem addsub_imm_sound (sf : BitVec 32) (op : BitVec 32) (s : BitVec 32) (shif
     w &&& 528482304#32 = 285212672#32 := by
   unfold cls.addsub_imm at h
   cls_norm at h
-  bv_decide
+  bv_decide (timeout := 600)
 
 example : ∃ w, cls.addsub_imm 0#32 0#32 0#32 0#32 0#32 R17 R17 = .ok w := ⟨_, rfl⟩
 
@@ -60,7 +60,7 @@ theorem csel_sound (sf : BitVec 32) (op : BitVec 32) (s : BitVec 32) (rm : Regis
     w &&& 534775808#32 = 444596224#32 := by
   unfold cls.csel at h
   cls_norm at h
-  cases cond <;> simp only [Cond.u32, bind_ok, pure_ok, ok_ok, ex_elim, ex_elim', ex_elim_r, throw, throwThe, MonadExceptOf.throw, reduceCtorEq, false_and, exists_false, and_false] at h ⊢ <;> bv_decide
+  cases cond <;> simp only [Cond.u32, bind_ok, pure_ok, ok_ok, ex_elim, ex_elim', ex_elim_r, throw, throwThe, MonadExceptOf.throw, reduceCtorEq, false_and, exists_false, and_false] at h ⊢ <;> bv_decide (timeout := 600)
 
 example : ∃ w, cls.csel 0#32 0#32 0#32 R17 Cond.GE 0#32 R17 R17 = .ok w := ⟨_, rfl⟩
 
@@ -84,7 +84,7 @@ theorem dataproc1_sound (sf : BitVec 32) (s : BitVec 32) (opcode2 : BitVec 32) (
     w &&& 1608515584#32 = 1522532352#32 := by
   unfold cls.dataproc1 at h
   cls_norm at h
-  bv_decide
+  bv_decide (timeout := 600)
 
 example : ∃ w, cls.dataproc1 0#32 0#32 0#32 0#32 R17 R17 = .ok w := ⟨_, rfl⟩
 
@@ -104,7 +104,7 @@ theorem fp_dataproc1_sound (m : BitVec 32) (s : BitVec 32) (ty : BitVec 32) (opc
     w &&& 4280318976#32 = 505430016#32 := by
   unfold cls.fp_dataproc1 at h
   cls_norm at h
-  bv_decide
+  bv_decide (timeout := 600)
 
 example : ∃ w, cls.fp_dataproc1 0#32 0#32 0#32 0#32 F31 F31 = .ok w := ⟨_, rfl⟩
 
@@ -130,7 +130,7 @@ theorem fp_int_sound (sf : BitVec 32) (s : BitVec 32) (ty : BitVec 32) (rmode : 
     w &&& 1595997184#32 = 505413632#32 := by
   unfold cls.fp_int at h
   cls_norm at h
-  bv_decide
+  bv_decide (timeout := 600)
 
 example : ∃ w, cls.fp_int 0#32 0#32 0#32 0#32 0#32 0#32 0#32 = .ok w := ⟨_, rfl⟩
 
@@ -157,7 +157,7 @@ theorem ldst_pair_post_sound (opc : BitVec 32) (v : BitVec 32) (l : BitVec 32) (
     w &&& 998244352#32 = 679477248#32 := by
   unfold cls.ldst_pair_post at h
   cls_norm at h
-  bv_decide
+  bv_decide (timeout := 600)
 
 example : ∃ w, cls.ldst_pair_post 0#32 0#32 0#32 4294967295#32 R17 R17 R17 = .ok w := ⟨_, rfl⟩
 
@@ -179,7 +179,7 @@ theorem logical_imm_sound (sf : BitVec 32) (opc : BitVec 32) (n_immr_imms : BitV
     w &&& 528482304#32 = 301989888#32 := by
   unfold cls.logical_imm at h
   cls_norm at h
-  bv_decide
+  bv_decide (timeout := 600)
 
 example : ∃ w, cls.logical_imm 0#32 0#32 0#32 R17 R17 = .ok w := ⟨_, rfl⟩
 
@@ -202,7 +202,7 @@ theorem move_wide_imm_sound (sf : BitVec 32) (opc : BitVec 32) (hw : BitVec 32) 
     (sf = 0#32 → hw.ult 2#32 = true) := by
   unfold cls.move_wide_imm at h
   cls_norm at h
-  bv_decide
+  bv_decide (timeout := 600)
 
 example : ∃ w, cls.move_wide_imm 0#32 0#32 0#32 0#32 R17 = .ok w := ⟨_, rfl⟩
 
@@ -228,7 +228,7 @@ theorem system_cls_sound (l : BitVec 32) (op0 : BitVec 32) (op1 : BitVec 32) (cr
     w &&& 4290772992#32 = 3573547008#32 := by
   unfold cls.system_cls at h
   cls_norm at h
-  bv_decide
+  bv_decide (timeout := 600)
 
 example : ∃ w, cls.system_cls 0#32 0#32 0#32 0#32 0#32 0#32 0#32 = .ok w := ⟨_, rfl⟩
 
